@@ -37,7 +37,9 @@ fn snap(a: &Array) -> Snap {
 pub fn explore(opts: &Opts) -> Explored {
     let mut pool: Vec<Vec<usize>> = vec![vec![1], vec![2], vec![2, 2], vec![1, 3], vec![2, 1, 2]];
     let max_len = if opts.tier == Tier::Quick { 3 } else { 4 };
-    let lrs: Vec<f64> = vec![0.0, 0.5, 2.0, -1.0];
+    // 0.1 and 1e-3 are not representable in any binary format: a rate that is narrowed, rounded or
+    // re-derived on the way to the step shows as a relative error far above the 4 ulp allowed
+    let lrs: Vec<f64> = vec![0.0, 0.5, 2.0, -1.0, 0.1, 1.0e-3];
     let var = opts.seed % 3;
     // all tuples
     let mut lists: Vec<Vec<usize>> = Vec::new();
@@ -67,8 +69,11 @@ pub fn explore(opts: &Opts) -> Explored {
         let list = &lists[i];
         let n = list.len();
         l.states += 1;
-        for family in 0..2u8 {
+        for family in 0..3u8 {
             for &lr in &lrs {
+                if family == 2 && (n > 3 || lr == 0.0 || lr == -1.0 || lr == 1.0e-3) {
+                    continue;
+                }
                 // long lists: a fixed selection of subsets instead of all of them
                 let subsets: Vec<u32> = if n <= 4 {
                     (0u32..(1 << n)).collect()
@@ -82,7 +87,7 @@ pub fn explore(opts: &Opts) -> Explored {
                             format!(
                                 "params={} family={} lr={} grads1={:0w$b} grads2={:0w$b} untracked_frozen={}",
                                 list.iter().map(|k| fmt_dims(&pool[*k])).collect::<Vec<_>>().join(","),
-                                if family == 0 { "gradient_mut" } else { "backward" },
+                                ["gradient_mut", "backward", "gradient_mut with the same elements under other dimensions"][family as usize],
                                 lr,
                                 s1,
                                 s2,
@@ -123,6 +128,13 @@ pub fn explore(opts: &Opts) -> Explored {
                                     let g = fl(&vals(numel(&d), k + 3 + round, var));
                                     if family == 0 {
                                         *params[k].gradient_mut() = Some(Array::from((d.clone(), g)));
+                                    } else if family == 2 {
+                                        // the same number of elements under different dimensions: the parameter keeps its own
+                                        let mut gd2: Vec<usize> = d.iter().rev().cloned().collect();
+                                        if gd2 == d {
+                                            gd2 = if d.len() == 1 { vec![1, d[0]] } else { vec![numel(&d)] };
+                                        }
+                                        *params[k].gradient_mut() = Some(Array::from((gd2, g)));
                                     } else {
                                         let was = params[k].start_tracking();
                                         let w = Array::from((d.clone(), g));
@@ -218,6 +230,44 @@ pub fn explore(opts: &Opts) -> Explored {
                         if v.iter().zip(&want).any(|(a, b)| a.to_bits() != b.to_bits() && (*a as f64 - *b as f64).abs() > 4.0 * f64::EPSILON * (*b as f64).abs()) {
                             l.violation("update", case(), format!("got {} but old - lr*g = {}", fmt_vals(&v), fmt_vals(&want)));
                         }
+                    }
+                }
+            }
+        }
+    }
+    // learning rates and gradients at opposite ends of the exponent range: the product is an ordinary number
+    if !IS_F32 {
+        let l = &mut local;
+        for (pi, (pv, gv, lr)) in [
+            (vec![1.0, -2.0, 0.0], vec![1.0e50, -3.0e50, 2.5e49], 1.0e-50),
+            (vec![1.0, -2.0, 0.0], vec![1.0e-40, -3.0e-40, 2.5e-41], 1.0e40),
+            (vec![5.0, 7.0], vec![3.0e-300, 1.0e-299], 1.0e300),
+            (vec![5.0, 7.0], vec![3.0e300, 1.0e299], -1.0e-300),
+        ]
+        .iter()
+        .enumerate()
+        {
+            let case = || format!("extreme rate list={} lr={:e}", pi, lr);
+            if !l.want(&case) {
+                continue;
+            }
+            l.states += 1;
+            l.transitions += 1;
+            l.validated += 1;
+            let r = run_catch(|| {
+                let mut p = Array::from((vec![pv.len()], fl(pv))).tracked();
+                *p.gradient_mut() = Some(Array::from((vec![gv.len()], fl(gv))));
+                let gd = GradientDescent::new(*lr as Float);
+                gd.update(vec![&mut p]);
+                p.values().to_vec()
+            });
+            match r {
+                Err(m) => l.violation("update", case(), format!("panicked: {}", m)),
+                Ok(v) => {
+                    let want: Vec<Float> = pv.iter().zip(gv.iter()).map(|(x, g)| (*x as Float) - (*lr as Float) * (*g as Float)).collect();
+                    l.outcome(digest_vals(&[v.len()], &v));
+                    if v.iter().zip(&want).any(|(a, b)| a.to_bits() != b.to_bits() && !((*a as f64 - *b as f64).abs() <= 8.0 * f64::EPSILON * (*b as f64).abs().max(1.0))) {
+                        l.violation("update", case(), format!("got {} but old - lr*g = {}", fmt_vals(&v), fmt_vals(&want)));
                     }
                 }
             }
